@@ -95,3 +95,7 @@ pub fn vzeroed(n: usize) -> (r: Vec<u8>)
 // <[T]>::fill (Rust reference)
 pub assume_specification<T: Clone>[<[T]>::fill](s: &mut [T], value: T)
     ensures final(s)@.len() == old(s)@.len();
+
+// io::Error::kind (Rust reference)
+pub assume_specification[std::io::Error::kind](e: &std::io::Error) -> (r: std::io::ErrorKind)
+    ensures r == io_kind(*e);
